@@ -58,15 +58,17 @@ pub open spec fn resp_header_line(s: Seq<char>) -> Option<HV> {
     if sp.is_none() { None } else { Some((sp.unwrap().0, strip_crlf(sp.unwrap().1))) }
 }
 
+// (Ok?, response afterwards, bytes left in the cursor); when the first component is false the other two are not meaningful
 pub enum RespRead {
-    Done(bool, RespS, Seq<u8>),      // (Ok?, response afterwards, bytes left in the cursor)
-    Multipart(RespS, Seq<u8>),       // the headers announce multipart/byteranges: the parts are read by Range::parse_multipart_body_with_boundary
+    Done(bool, RespS, Seq<u8>),
 }
-pub open spec fn resp_read(r: Seq<u8>, iter: nat, st: RespS) -> RespRead
+pub open spec fn s_boundary_eq2() -> Seq<char> { seq!['b', 'o', 'u', 'n', 'd', 'a', 'r', 'y', '='] }
+pub open spec fn resp_read(r: Seq<u8>, iter: nat, st: RespS, br: int, total: int) -> RespRead
     decreases r.len() via resp_read_dec
 {
     let line = first_line(r);
     let r2 = after_line(r);
+    let br2 = br + line.len();
     if !valid_utf8(line) { RespRead::Done(false, st, r2) } else {
         let s = vstd::utf8::decode_utf8(line);
         let first = iter == 0;
@@ -78,8 +80,15 @@ pub open spec fn resp_read(r: Seq<u8>, iter: nat, st: RespS) -> RespRead
             } else { st };
             if blank {
                 let ct = ctype_of(st1.headers);
-                if ct.is_some() && has_prefix(ct.unwrap(), s_multipart_byteranges()) { RespRead::Multipart(st1, r2) }
-                else {
+                if ct.is_some() && has_prefix(ct.unwrap(), s_multipart_byteranges()) {
+                    // multipart/byteranges: the boundary is everything after the first "boundary=" of the Content-Type value
+                    let bsp = split_once_spec(ct.unwrap(), s_boundary_eq2());
+                    if bsp.is_none() { RespRead::Done(false, st1, r2) } else {
+                        let mp = mp_read(r2, Seq::<CRV>::empty(), bsp.unwrap().1, false, br2, total);
+                        if mp.is_none() { RespRead::Done(false, st1, r2) }
+                        else { RespRead::Done(true, RespS { version: st1.version, code: st1.code, reason: st1.reason, headers: st1.headers, parts: mp.unwrap() }, Seq::<u8>::empty()) }
+                    }
+                } else {
                     let part = CRV { unit: s_bytes(), start: 0, end: r2.len() as int, size: dec(r2.len()), body: r2, ctype: if ct.is_some() { ct.unwrap() } else { s_octet_stream() } };
                     RespRead::Done(true, RespS { version: st1.version, code: st1.code, reason: st1.reason, headers: st1.headers, parts: seq![part] }, Seq::<u8>::empty())
                 }
@@ -87,29 +96,236 @@ pub open spec fn resp_read(r: Seq<u8>, iter: nat, st: RespS) -> RespRead
                 if !first {
                     match resp_header_line(s) {
                         None => RespRead::Done(false, st1, r2),
-                        Some(h) => resp_read(r2, iter + 1, RespS { version: st1.version, code: st1.code, reason: st1.reason, headers: st1.headers.push(h), parts: st1.parts }),
+                        Some(h) => resp_read(r2, iter + 1, RespS { version: st1.version, code: st1.code, reason: st1.reason, headers: st1.headers.push(h), parts: st1.parts }, br2, total),
                     }
-                } else { resp_read(r2, iter + 1, st1) }
+                } else { resp_read(r2, iter + 1, st1, br2, total) }
             } else { RespRead::Done(false, st1, r2) }
         }
     }
 }
 #[via_fn]
-proof fn resp_read_dec(r: Seq<u8>, iter: nat, st: RespS) {
+proof fn resp_read_dec(r: Seq<u8>, iter: nat, st: RespS, br: int, total: int) {
     lemma_line_len(r);
 }
 pub open spec fn resp_read_matches(want: RespRead, ok: bool, after: Response, rest: Seq<u8>) -> bool {
     match want {
-        RespRead::Done(o, st, rm) => ok == o && resps(after) == st && rest == rm,
-        RespRead::Multipart(_, _) => true,
+        RespRead::Done(o, st, rm) => ok == o && (o ==> resps(after) == st && rest == rm),
     }
 }
-
 pub open spec fn empty_resps() -> RespS { RespS { version: Seq::empty(), code: 0, reason: Seq::empty(), headers: Seq::empty(), parts: Seq::empty() } }
 // Response::parse
 pub open spec fn resp_parse_matches(want: RespRead, res: Result<Response, String>) -> bool {
     match want {
         RespRead::Done(o, st, _rm) => res.is_ok() == o && (o ==> resps(res.unwrap()) == st),
-        RespRead::Multipart(_, _) => true,
     }
+}
+
+// ---------- "bytes first-last/size" (Range::_parse_raw_content_range_header_value / _parse_content_range_header_value) ----------
+pub open spec fn hyphen1() -> Seq<char> { seq!['-'] }
+pub open spec fn slash1() -> Seq<char> { seq!['/'] }
+pub open spec fn i64_ok(t: Seq<char>) -> bool { parses_signed(t, i64::MIN as int, i64::MAX as int) }
+// the raw triple: trim, lower-case, "bytes" SP first "-" last "/" size, each number as Rust's i64 parser reads it
+pub open spec fn cr_raw(v: Seq<char>) -> Option<(int, int, int)> {
+    let t = lower_spec(trim_spec(v));
+    let s1 = split_once_spec(t, sp1());
+    if s1.is_none() || s1.unwrap().0 != s_bytes() { None } else {
+        let s2 = split_once_spec(s1.unwrap().1, hyphen1());
+        if s2.is_none() || !i64_ok(s2.unwrap().0) { None } else {
+            let s3 = split_once_spec(s2.unwrap().1, slash1());
+            if s3.is_none() || !i64_ok(s3.unwrap().0) || !i64_ok(s3.unwrap().1) { None }
+            else { Some((signed_val(s2.unwrap().0), signed_val(s3.unwrap().0), signed_val(s3.unwrap().1))) }
+        }
+    }
+}
+// accepted only when first <= last <= size
+pub open spec fn cr_value(v: Seq<char>) -> Option<(int, int, int)> {
+    let r = cr_raw(v);
+    if r.is_none() || r.unwrap().0 > r.unwrap().1 || r.unwrap().0 > r.unwrap().2 || r.unwrap().1 > r.unwrap().2 { None } else { r }
+}
+
+// Response::_parse_http_response_header_string: pieces of the split at EVERY ": "; the first is the name, the second (if any) the value
+pub open spec fn resp_header_line_lax(s: Seq<char>) -> HV {
+    let ps = split_spec(s, colon_sp1());
+    (ps[0], strip_crlf(if ps.len() > 1 { ps[1] } else { Seq::<char>::empty() }))
+}
+
+// ---------- the multipart/byteranges body (Range::parse_multipart_body_with_boundary) ----------
+pub open spec fn s_content_range() -> Seq<char> { seq!['C', 'o', 'n', 't', 'e', 'n', 't', '-', 'R', 'a', 'n', 'g', 'e'] }
+// the body loop: lines are collected until one holds the boundary text; a line that is not UTF-8 is body; reaching the end of
+// the input (as the byte counter sees it, or a read of 0 bytes) without a boundary line is an error
+pub open spec fn mp_body(r: Seq<u8>, b: Seq<char>, acc: Seq<u8>, br: int, total: int) -> Option<(Seq<u8>, Seq<u8>, int)>
+    decreases r.len() via mp_body_dec
+{
+    let line = first_line(r);
+    let r2 = after_line(r);
+    let br2 = br + line.len();
+    if !valid_utf8(line) { mp_body(r2, b, acc + line, br2, total) }
+    else if has_sub(vstd::utf8::decode_utf8(line), b) { Some((acc, r2, br2)) }
+    else if br2 == total || line.len() == 0 { None }
+    else { mp_body(r2, b, acc + line, br2, total) }
+}
+#[via_fn]
+proof fn mp_body_dec(r: Seq<u8>, b: Seq<char>, acc: Seq<u8>, br: int, total: int) {
+    lemma_line_len(r);
+    // a line that is not valid UTF-8 is not empty
+    vstd::utf8::encode_utf8_valid_utf8(Seq::<char>::empty());
+    vstd::utf8::is_ascii_chars_encode_utf8(Seq::<char>::empty());
+    assert(vstd::utf8::encode_utf8(Seq::<char>::empty()) =~= Seq::<u8>::empty());
+    if first_line(r).len() == 0 { assert(first_line(r) =~= Seq::<u8>::empty()); }
+}
+pub proof fn lemma_mp_body_shrinks(r: Seq<u8>, b: Seq<char>, acc: Seq<u8>, br: int, total: int)
+    ensures mp_body(r, b, acc, br, total).is_some() ==> mp_body(r, b, acc, br, total).unwrap().1.len() <= r.len(),
+    decreases r.len()
+{
+    lemma_line_len(r);
+    vstd::utf8::encode_utf8_valid_utf8(Seq::<char>::empty());
+    vstd::utf8::is_ascii_chars_encode_utf8(Seq::<char>::empty());
+    assert(vstd::utf8::encode_utf8(Seq::<char>::empty()) =~= Seq::<u8>::empty());
+    let line = first_line(r);
+    if line.len() == 0 { assert(line =~= Seq::<u8>::empty()); }
+    let r2 = after_line(r);
+    if !valid_utf8(line) { lemma_mp_body_shrinks(r2, b, acc + line, br + line.len(), total); }
+    else if !has_sub(vstd::utf8::decode_utf8(line), b) && !(br + line.len() == total || line.len() == 0) { lemma_mp_body_shrinks(r2, b, acc + line, br + line.len(), total); }
+}
+// Vec::pop twice
+pub open spec fn pop2(x: Seq<u8>) -> Seq<u8> { if x.len() >= 2 { x.subrange(0, x.len() - 2) } else { Seq::empty() } }
+
+// the text of the line to look at next, after optionally skipping a line: (text, rest) or None when the skipped-to line is not UTF-8
+pub open spec fn next_text(r: Seq<u8>) -> Option<(Seq<char>, Seq<u8>)> {
+    if valid_utf8(first_line(r)) { Some((vstd::utf8::decode_utf8(first_line(r)), after_line(r))) } else { None }
+}
+// one call, as a step: either the call ends (Stop: Some(parts) / None = error) or it goes on with another call (Next)
+pub enum MpStep {
+    Stop(Option<Seq<CRV>>),
+    Next(Seq<u8>, Seq<CRV>, bool, int),      // rest of the input, parts so far, opening boundary read, byte counter
+}
+pub open spec fn mp_step(r: Seq<u8>, parts: Seq<CRV>, b: Seq<char>, opening: bool, br: int, total: int) -> MpStep {
+    let l1 = first_line(r);
+    let r1 = after_line(r);
+    let br1 = br + l1.len();
+    if !valid_utf8(l1) { MpStep::Stop(None) }
+    else if l1.len() == 0 { MpStep::Stop(Some(parts)) }
+    else {
+        let s1 = vstd::utf8::decode_utf8(l1);
+        if trim_spec(s1).len() != 0 && !opening && !has_sub(s1, b) { MpStep::Stop(None) } else {
+            // a boundary line: go on to the line after it
+            let at_boundary = has_sub(s1, b);
+            let opening2 = opening || at_boundary;
+            let n2 = if at_boundary { next_text(r1) } else { Some((s1, r1)) };
+            if n2.is_none() { MpStep::Stop(None) } else {
+                let s2 = n2.unwrap().0;
+                let r2 = n2.unwrap().1;
+                // Content-Type line
+                let has_ct = has_prefix(s2, s_content_type());
+                let h_ct = resp_header_line(s2);
+                if has_ct && h_ct.is_none() { MpStep::Stop(None) } else {
+                    let ctype = if has_ct { trim_spec(h_ct.unwrap().1) } else { Seq::<char>::empty() };
+                    let n3 = if has_ct { next_text(r2) } else { Some((s2, r2)) };
+                    if n3.is_none() { MpStep::Stop(None) } else {
+                        let s3 = n3.unwrap().0;
+                        let r3 = n3.unwrap().1;
+                        // Content-Range line, then the blank line
+                        let has_cr = has_prefix(s3, s_content_range());
+                        let cr = cr_value(resp_header_line_lax(s3).1);
+                        if has_cr && cr.is_none() { MpStep::Stop(None) } else {
+                            let n4 = if has_cr { next_text(r3) } else { Some((s3, r3)) };
+                            if n4.is_none() { MpStep::Stop(None) }
+                            else if has_cr && trim_spec(n4.unwrap().0).len() > 0 { MpStep::Stop(None) }
+                            else {
+                                let r4 = n4.unwrap().1;
+                                if has_cr && ctype.len() != 0 {
+                                    let bd = mp_body(r4, b, Seq::<u8>::empty(), br1, total);
+                                    if bd.is_none() { MpStep::Stop(None) } else {
+                                        let part = CRV { unit: s_bytes(), start: (cr.unwrap().0 as u64) as int, end: (cr.unwrap().1 as u64) as int, size: dec_i(cr.unwrap().2),
+                                                         body: pop2(bd.unwrap().0), ctype: ctype };
+                                        MpStep::Next(bd.unwrap().1, parts.push(part), opening2, bd.unwrap().2)
+                                    }
+                                } else {
+                                    MpStep::Next(r4, parts, opening2, br1)
+                                }
+                            }
+                        }
+                    }
+                }
+            }
+        }
+    }
+}
+pub proof fn lemma_mp_step_shrinks(r: Seq<u8>, parts: Seq<CRV>, b: Seq<char>, opening: bool, br: int, total: int)
+    ensures mp_step(r, parts, b, opening, br, total) is Next ==> mp_step(r, parts, b, opening, br, total)->Next_0.len() < r.len(),
+{
+    lemma_line_len(r);
+    let r1 = after_line(r);
+    lemma_line_len(r1);
+    let s1 = vstd::utf8::decode_utf8(first_line(r));
+    let at_boundary = has_sub(s1, b);
+    let n2 = if at_boundary { next_text(r1) } else { Some((s1, r1)) };
+    if n2.is_some() {
+        let r2 = n2.unwrap().1;
+        lemma_line_len(r2);
+        let s2 = n2.unwrap().0;
+        let has_ct = has_prefix(s2, s_content_type());
+        let n3 = if has_ct { next_text(r2) } else { Some((s2, r2)) };
+        if n3.is_some() {
+            let r3 = n3.unwrap().1;
+            lemma_line_len(r3);
+            let s3 = n3.unwrap().0;
+            let has_cr = has_prefix(s3, s_content_range());
+            let n4 = if has_cr { next_text(r3) } else { Some((s3, r3)) };
+            if n4.is_some() {
+                let r4 = n4.unwrap().1;
+                lemma_mp_body_shrinks(r4, b, Seq::<u8>::empty(), br + first_line(r).len(), total);
+            }
+        }
+    }
+}
+// the whole reader: steps until one stops.  Opaque: proofs use lemma_mp_read_unfold for exactly one unfolding.
+#[verifier::opaque]
+pub open spec fn mp_read(r: Seq<u8>, parts: Seq<CRV>, b: Seq<char>, opening: bool, br: int, total: int) -> Option<Seq<CRV>>
+    decreases r.len() via mp_read_dec
+{
+    match mp_step(r, parts, b, opening, br, total) {
+        MpStep::Stop(x) => x,
+        MpStep::Next(r2, parts2, opening2, br2) => mp_read(r2, parts2, b, opening2, br2, total),
+    }
+}
+#[via_fn]
+proof fn mp_read_dec(r: Seq<u8>, parts: Seq<CRV>, b: Seq<char>, opening: bool, br: int, total: int) {
+    lemma_mp_step_shrinks(r, parts, b, opening, br, total);
+}
+pub proof fn lemma_mp_read_unfold(r: Seq<u8>, parts: Seq<CRV>, b: Seq<char>, opening: bool, br: int, total: int)
+    ensures mp_read(r, parts, b, opening, br, total) == (match mp_step(r, parts, b, opening, br, total) {
+        MpStep::Stop(x) => x,
+        MpStep::Next(r2, parts2, opening2, br2) => mp_read(r2, parts2, b, opening2, br2, total),
+    }),
+{
+    reveal(mp_read);
+}
+pub open spec fn mp_read_matches(want: Option<Seq<CRV>>, res: Result<Vec<ContentRange>, String>, rest: Seq<u8>) -> bool {
+    match want { None => res.is_err(), Some(ps) => res.is_ok() && crvs(res.unwrap()@) == ps && rest.len() == 0 }
+}
+
+pub proof fn lemma_crvs_push(l: Seq<ContentRange>, p: ContentRange)
+    ensures crvs(l.push(p)) == crvs(l).push(crv(p)),
+{
+    assert(crvs(l.push(p)) =~= crvs(l).push(crv(p)));
+}
+pub proof fn lemma_dec_i_nonempty(cr: Option<(int, int, int)>)
+    ensures cr.is_some() ==> dec_i(cr.unwrap().2).len() > 0,
+{
+    if cr.is_some() {
+        let n = cr.unwrap().2;
+        if n < 0 { lemma_dec_len((-n) as nat); } else { lemma_dec_len(n as nat); }
+    }
+}
+pub proof fn lemma_dec_len(n: nat)
+    ensures dec(n).len() > 0,
+    decreases n
+{
+    if n >= 10 { lemma_dec_len(n / 10); }
+}
+pub proof fn lemma_bflat2_apply(a: Seq<u8>, b: Seq<u8>)
+    ensures flat(seq![a, b]) == a + b,
+{
+    lemma_flat2(a, b);
 }
